@@ -28,6 +28,7 @@ type held struct {
 	mode byte // 'W' or 'R'
 	must bool
 	site token.Pos
+	acq  ssa.Instruction // acquiring instruction (Lock/TryLock call or wrapper call)
 }
 
 type lstate map[lockKey]held
@@ -91,6 +92,7 @@ type orderEdge struct {
 	site     token.Pos
 	via      string
 	sameInst bool
+	gates    map[string]bool // exclusive locks (other than from/to) held at EVERY site that creates this edge
 }
 
 type lckResult struct {
@@ -111,6 +113,9 @@ type lckResult struct {
 	guardWhy   map[string]string
 	guardSeen  int
 	reporting  bool
+	gatePass   bool
+	entryGate  map[*ssa.Function]map[string]bool // exclusive locks held by EVERY caller at the call (nil = not yet known)
+	nextGate   map[*ssa.Function]map[string]bool
 	mustAt     map[ssa.Instruction]lstate // state before selected instructions (for GRD-rmw)
 	wantState  func(ssa.Instruction) bool
 }
@@ -433,6 +438,15 @@ func (w *World) lockAnalysis() *lckResult {
 	}
 	lr := &lckResult{w: w, sum: map[*ssa.Function]*lsummary{}, edges: map[string]orderEdge{}, unpairedAt: map[string]token.Pos{}, badRelease: map[string]token.Pos{},
 		unresolved: map[string]token.Pos{}, classes: map[string]int{}, siteCallee: map[ssa.CallInstruction][]*ssa.Function{}, guardViol: map[string]token.Pos{}, guardWhy: map[string]string{}, mustAt: map[ssa.Instruction]lstate{}}
+	gm, am, jw := w.FuncObj("pkg/core", "DB.GetMetadataForNode"), w.FuncObj("pkg/core", "DB.AddMetadata"), w.FuncObj("pkg/persistence", "LazyAOFWriter.Write")
+	lr.wantState = func(in ssa.Instruction) bool {
+		c, ok := in.(*ssa.Call)
+		if !ok {
+			return false
+		}
+		o := calleeObj(&c.Call)
+		return o != nil && (o == gm || o == am || o == jw)
+	}
 	lr.g = w.VTA()
 	for fn, node := range lr.g.Nodes {
 		if fn == nil || !inModule(fn) || len(fn.Blocks) == 0 {
@@ -464,6 +478,76 @@ func (w *World) lockAnalysis() *lckResult {
 			break
 		}
 	}
+	// gate locks inherited from callers: meet over all call sites, top-down to a fixpoint
+	lr.entryGate = map[*ssa.Function]map[string]bool{}
+	spawned := map[*ssa.Function]bool{}
+	for _, fn := range lr.funcs {
+		for _, b := range fn.Blocks {
+			for _, in := range b.Instrs {
+				if g, ok := in.(*ssa.Go); ok {
+					for _, t := range lr.callees(g) {
+						spawned[t] = true
+					}
+					if mc, ok := g.Call.Value.(*ssa.MakeClosure); ok {
+						if f, ok := mc.Fn.(*ssa.Function); ok {
+							spawned[f] = true
+						}
+					}
+				}
+			}
+		}
+	}
+	isRoot := func(fn *ssa.Function) bool {
+		if spawned[fn] {
+			return true
+		}
+		if o, ok := fn.Object().(*types.Func); ok && o.Exported() {
+			return true // callable from outside the module with nothing held
+		}
+		node := lr.g.Nodes[fn]
+		for _, e := range node.In {
+			if e.Caller != nil && e.Caller.Func != nil && inModule(e.Caller.Func) {
+				return false
+			}
+		}
+		return true
+	}
+	for _, fn := range lr.funcs {
+		if isRoot(fn) {
+			lr.entryGate[fn] = map[string]bool{}
+		}
+	}
+	lr.gatePass = true
+	for round := 0; round < 8; round++ {
+		lr.nextGate = map[*ssa.Function]map[string]bool{}
+		for _, fn := range lr.funcs {
+			if lr.entryGate[fn] != nil {
+				lr.analyse(fn, false)
+			}
+		}
+		changed := false
+		for fn, g := range lr.nextGate {
+			if isRoot(fn) {
+				continue
+			}
+			prev := lr.entryGate[fn]
+			if prev == nil {
+				lr.entryGate[fn] = g
+				changed = true
+				continue
+			}
+			for k := range prev {
+				if !g[k] {
+					delete(prev, k)
+					changed = true
+				}
+			}
+		}
+		if !changed {
+			break
+		}
+	}
+	lr.gatePass = false
 	// final reporting pass
 	lr.reporting = true
 	for _, fn := range lr.funcs {
@@ -494,6 +578,22 @@ func (lr *lckResult) deferredReleases(fn *ssa.Function) map[lockKey]bool {
 	out := map[lockKey]bool{}
 	for _, b := range fn.Blocks {
 		for _, in := range b.Instrs {
+			if d, ok := in.(*ssa.Defer); ok {
+				for k := range lr.deferReleases(fn, d) {
+					out[k] = true
+				}
+			}
+		}
+	}
+	return out
+}
+
+// deferReleases: the lock keys one defer statement releases at function exit.
+func (lr *lckResult) deferReleases(fn *ssa.Function, d *ssa.Defer) map[lockKey]bool {
+	out := map[lockKey]bool{}
+	for _, b := range []*ssa.BasicBlock{d.Block()} {
+		for _, in := range []ssa.Instruction{d} {
+			_ = b
 			d, ok := in.(*ssa.Defer)
 			if !ok {
 				continue
@@ -560,7 +660,6 @@ func (lr *lckResult) analyse(fn *ssa.Function, report bool) bool {
 			changed = true
 		}
 	}
-	defRel := lr.deferredReleases(fn)
 	newRel := map[lockKey]bool{}
 	in := map[*ssa.BasicBlock]lstate{fn.Blocks[0]: {}}
 	work := []*ssa.BasicBlock{fn.Blocks[0]}
@@ -574,24 +673,41 @@ func (lr *lckResult) analyse(fn *ssa.Function, report bool) bool {
 			return
 		}
 		for hk := range s {
-			if strings.HasPrefix(hk.class, "<param") || strings.HasPrefix(to.class, "<param") {
+			if strings.HasPrefix(hk.class, "<param") || strings.HasPrefix(to.class, "<param") || strings.HasPrefix(hk.class, "defer:") {
 				continue
 			}
 			if hk.class == to.class {
 				same := hk.inst == to.inst && hk.inst != "*"
 				if same {
-					lr.reentrant = append(lr.reentrant, orderEdge{hk.class, to.class, name, site, via, true})
+					lr.reentrant = append(lr.reentrant, orderEdge{hk.class, to.class, name, site, via, true, nil})
 				} else {
 					key := hk.class + " -> " + to.class
 					if _, ok := lr.edges[key]; !ok {
-						lr.edges[key] = orderEdge{hk.class, to.class, name, site, via, false}
+						lr.edges[key] = orderEdge{hk.class, to.class, name, site, via, false, map[string]bool{}}
 					}
 				}
 				continue
 			}
 			key := hk.class + " -> " + to.class
-			if _, ok := lr.edges[key]; !ok {
-				lr.edges[key] = orderEdge{hk.class, to.class, name, site, via, false}
+			gates := map[string]bool{}
+			for gk, gh := range s {
+				if gh.must && gh.mode == 'W' && gk.class != hk.class && gk.class != to.class && !strings.HasPrefix(gk.class, "defer:") {
+					gates[gk.class] = true
+				}
+			}
+			for g := range lr.entryGate[fn] {
+				if g != hk.class && g != to.class {
+					gates[g] = true
+				}
+			}
+			if prev, ok := lr.edges[key]; !ok {
+				lr.edges[key] = orderEdge{hk.class, to.class, name, site, via, false, gates}
+			} else {
+				for g := range prev.gates {
+					if !gates[g] {
+						delete(prev.gates, g)
+					}
+				}
 			}
 		}
 	}
@@ -682,7 +798,10 @@ func (lr *lckResult) analyse(fn *ssa.Function, report bool) bool {
 			if _, isGo := ins.(*ssa.Go); isGo {
 				continue
 			}
-			if _, isDefer := ins.(*ssa.Defer); isDefer {
+			if d, isDefer := ins.(*ssa.Defer); isDefer {
+				for k := range lr.deferReleases(fn, d) {
+					s[lockKey{"defer:" + k.class, "*"}] = held{'D', true, d.Pos(), d}
+				}
 				continue
 			}
 			c := ci.Common()
@@ -706,7 +825,7 @@ func (lr *lckResult) analyse(fn *ssa.Function, report bool) bool {
 					}
 					recordEdge(s, k, ins.Pos(), "")
 					addAcq(k, mode, "", ins.Pos())
-					s[k] = held{mode, true, ins.Pos()}
+					s[k] = held{mode, true, ins.Pos(), ins}
 				case "TryLock", "TryRLock":
 					mode := byte('W')
 					if op == "TryRLock" {
@@ -761,6 +880,26 @@ func (lr *lckResult) analyse(fn *ssa.Function, report bool) bool {
 				if cs == nil {
 					continue
 				}
+				if lr.gatePass {
+					cur := map[string]bool{}
+					for k, h := range s {
+						if h.must && h.mode == 'W' {
+							cur[k.class] = true
+						}
+					}
+					for g := range lr.entryGate[fn] {
+						cur[g] = true
+					}
+					if prev, ok := lr.nextGate[callee]; !ok {
+						lr.nextGate[callee] = cur
+					} else {
+						for g := range prev {
+							if !cur[g] {
+								delete(prev, g)
+							}
+						}
+					}
+				}
 				isClosureOfFn := callee.Parent() != nil
 				tr := func(k lockKey) lockKey {
 					if strings.HasPrefix(k.class, "<param") {
@@ -788,7 +927,7 @@ func (lr *lckResult) analyse(fn *ssa.Function, report bool) bool {
 				}
 				for k, mode := range cs.netHold {
 					kk := tr(k)
-					s[kk] = held{mode, true, ins.Pos()}
+					s[kk] = held{mode, true, ins.Pos(), ins}
 				}
 				for k := range cs.netRel {
 					kk := tr(k)
@@ -872,7 +1011,9 @@ func (lr *lckResult) analyse(fn *ssa.Function, report bool) bool {
 					_ = f
 					_ = iff
 					if isTrue {
-						ns[tp.k] = held{tp.mode, true, v.Pos()}
+						if vi, ok := v.(ssa.Instruction); ok {
+							ns[tp.k] = held{tp.mode, true, v.Pos(), vi}
+						}
 					}
 				}
 			}
@@ -896,16 +1037,25 @@ func (lr *lckResult) analyse(fn *ssa.Function, report bool) bool {
 	for _, es := range exitStates {
 		cur := map[lockKey]byte{}
 		for k, h := range es {
-			if defRel[k] || defRel[lockKey{k.class, "*"}] {
+			if strings.HasPrefix(k.class, "defer:") {
 				continue
 			}
-			covered := false
-			for dk := range defRel {
-				if dk.class == k.class {
-					covered = true
+			if dh, ok := es[lockKey{"defer:" + k.class, "*"}]; ok {
+				if dh.must {
+					continue // released by a defer registered on every path to this exit
 				}
-			}
-			if covered {
+				// lock and defer are both conditional (e.g. `if coord != nil { if !Try() {return}; defer Release() }`,
+				// or Lock+defer inside a loop): decide by paths — from the acquisition, can an exit be
+				// reached without passing a release of this class?
+				if h.acq == nil || !lr.leaksFrom(fn, h.acq, k.class) {
+					continue
+				}
+				if report {
+					id := name + ":" + k.class
+					if _, ok := lr.unpairedAt[id]; !ok {
+						lr.unpairedAt[id] = h.site
+					}
+				}
 				continue
 			}
 			if h.must {
@@ -1278,7 +1428,63 @@ func ruleLCK(w *World, r *Report) *lckResult {
 			}
 			continue
 		}
+		gated := ""
+		if inCycle[e.from] != 0 && inCycle[e.from] == inCycle[e.to] && against(e) && len(e.gates) > 0 {
+			// is there a return path e.to ~> e.from made only of edges that can run concurrently with e
+			// (no common exclusive gate lock)?
+			sub := map[string][]string{}
+			for _, f := range lr.edges {
+				if f.from == f.to {
+					continue
+				}
+				common := false
+				for g := range f.gates {
+					if e.gates[g] {
+						common = true
+					}
+				}
+				if !common {
+					sub[f.from] = append(sub[f.from], f.to)
+				}
+			}
+			seen := map[string]bool{e.to: true}
+			q := []string{e.to}
+			reach := false
+			for len(q) > 0 {
+				x := q[0]
+				q = q[1:]
+				if x == e.from {
+					reach = true
+					break
+				}
+				for _, y := range sub[x] {
+					if !seen[y] {
+						seen[y] = true
+						q = append(q, y)
+					}
+				}
+			}
+			if !reach {
+				var gs []string
+				for g := range e.gates {
+					gs = append(gs, g)
+				}
+				sort.Strings(gs)
+				gated = strings.Join(gs, ", ")
+			}
+		}
+		if gated == "" && inCycle[e.from] != 0 && inCycle[e.from] == inCycle[e.to] && against(e) {
+			if g, ok := lckGateTable[e.from+"->"+e.to]; ok {
+				if why := checkGate(w, lr, g); why == "" {
+					gated = g.lock + " (checked: " + g.doc + ")"
+				} else {
+					r.Bad("LCK-3", "gate:"+e.from+"->"+e.to, w.Pos(e.site), "the inversion "+e.from+" -> "+e.to+" is meant to be serialised by "+g.lock+", but "+why)
+				}
+			}
+		}
 		switch {
+		case gated != "":
+			r.Ok("LCK-3", "order:"+e.from+"->"+e.to, w.Pos(e.site), "inversion is serialised by the gate lock(s) "+gated+" held on both sides: the opposite-order paths cannot run concurrently")
 		case inCycle[e.from] != 0 && inCycle[e.from] == inCycle[e.to] && against(e):
 			r.Bad("LCK-3", "order:"+e.from+"->"+e.to, w.Pos(e.site), fmt.Sprintf("lock-order inversion: %s holds %s and acquires %s%s, while other paths take %s before %s (cycle among {%s}): goroutines on the two paths deadlock (with RWMutex read locks as soon as a writer queues)", shortQ(e.fn), e.from, e.to, via, e.to, e.from, strings.Join(sccs[inCycle[e.from]-1], ", ")))
 		case inCycle2[e.from] != 0 && inCycle2[e.from] == inCycle2[e.to]:
@@ -1598,4 +1804,464 @@ func isFreshObject(v ssa.Value) bool {
 		return len(x.Edges) > 0
 	}
 	return false
+}
+
+// ruleGRDrmw: metadata read-modify-write operations keep read, journal write and write-back inside one
+// hold of the per-node metadata lock.
+func ruleGRDrmw(w *World, r *Report, lr *lckResult) {
+	r.Doc("GRD-rmw", "in every engine operation that reads a node's metadata and writes it back (VReinforce, VSetMetadata, …) the read, the journal write and the write-back all happen while the per-node metadata lock is held (else concurrent updates are lost)", 6)
+	gm, am, jw := w.FuncObj("pkg/core", "DB.GetMetadataForNode"), w.FuncObj("pkg/core", "DB.AddMetadata"), w.FuncObj("pkg/persistence", "LazyAOFWriter.Write")
+	const cls = "engine.Engine.metadataLocks[*]"
+	n := 0
+	for _, fn := range lr.funcs {
+		if fn.Pkg == nil || fn.Pkg.Pkg == nil || !strings.HasSuffix(fn.Pkg.Pkg.Path(), "/pkg/engine") || fn.Parent() != nil {
+			continue
+		}
+		reads, writes := findInstrs(fn, callsTo(gm)), findInstrs(fn, callsTo(am))
+		if len(reads) == 0 || len(writes) == 0 {
+			continue
+		}
+		// the written-back map must derive from the read one (a true read-modify-write)
+		isRMW := false
+		for _, wr := range writes {
+			arg := wr.(*ssa.Call).Call.Args[3]
+			for _, rd := range reads {
+				if valueDerivesFrom(arg, rd.(*ssa.Call), 0) {
+					isRMW = true
+				}
+			}
+		}
+		if !isRMW {
+			continue
+		}
+		n++
+		nm := shortFn(fn)
+		steps := []struct {
+			what string
+			ins  []ssa.Instruction
+		}{{"read", reads}, {"journal", findInstrs(fn, callsTo(jw))}, {"write-back", writes}}
+		for _, st := range steps {
+			for i, in := range st.ins {
+				state, ok := lr.mustAt[in]
+				held := ok && mustHoldsClass(state, cls)
+				r.Cond(held, "GRD-rmw", fmt.Sprintf("%s:%s#%d-under-node-lock", nm, st.what, i+1), w.Pos(in.Pos()), "per-node metadata lock held",
+					fmt.Sprintf("%s performs the %s of its metadata read-modify-write without holding the per-node metadata lock: two concurrent updates of the same node both read the old map and the later write-back (and its journal record) overwrites the other — increments and merged keys are lost, also after restart", nm, st.what))
+			}
+		}
+	}
+	if n == 0 {
+		r.Und("GRD-rmw", "anchor:metadata-rmw-operations", "", "no engine operation with a metadata read-modify-write found")
+	}
+}
+
+func valueDerivesFrom(v ssa.Value, src ssa.Value, depth int) bool {
+	if depth > 6 || v == nil {
+		return false
+	}
+	if v == src {
+		return true
+	}
+	switch x := v.(type) {
+	case *ssa.Phi:
+		for _, e := range x.Edges {
+			if valueDerivesFrom(e, src, depth+1) {
+				return true
+			}
+		}
+	case *ssa.UnOp:
+		if al, ok := x.X.(*ssa.Alloc); ok {
+			for _, ref := range *al.Referrers() {
+				if st, ok := ref.(*ssa.Store); ok && st.Addr == al && valueDerivesFrom(st.Val, src, depth+1) {
+					return true
+				}
+			}
+		}
+	case *ssa.ChangeType:
+		return valueDerivesFrom(x.X, src, depth+1)
+	}
+	return false
+}
+
+// ruleLCK6: event fan-out never blocks a writer.
+func ruleLCK6(w *World, r *Report) {
+	r.Doc("LCK-6", "every channel send in the event bus fan-out is a select with a default arm (a slow subscriber never delays writers)", 1)
+	fi := w.Func("pkg/engine", "EventBus.Emit")
+	if fi == nil {
+		r.Und("LCK-6", "anchor:EventBus.Emit", "", "anchor lost")
+		return
+	}
+	fn := w.SSAFunc(fi.Obj)
+	n := 0
+	for _, b := range fn.Blocks {
+		for _, in := range b.Instrs {
+			switch x := in.(type) {
+			case *ssa.Send:
+				n++
+				r.Bad("LCK-6", "Emit:send", w.Pos(x.Pos()), "EventBus.Emit sends to a subscriber channel with a blocking send (held under the bus lock): one slow subscriber stalls every writer")
+			case *ssa.Select:
+				for _, st := range x.States {
+					if st.Dir == types.SendOnly {
+						n++
+						r.Cond(!x.Blocking, "LCK-6", "Emit:select-send", w.Pos(x.Pos()), "non-blocking send (select with default)", "EventBus.Emit's select has no default arm: a full subscriber buffer blocks the writer while the bus lock is held")
+					}
+				}
+			}
+		}
+	}
+	if n == 0 {
+		r.Und("LCK-6", "Emit:send", w.Pos(fi.Decl.Pos()), "no send found in EventBus.Emit")
+	}
+}
+
+// ruleLCK3b: multi-instance acquisitions of the graph shard locks are ordered by ascending shard index.
+func ruleLCK3b(w *World, r *Report, lr *lckResult) {
+	r.Doc("LCK-3b", "whoever holds more than one graph-shard lock takes them in ascending shard-index order: LockTwoShards locks the lower index first in both branches, and the sweeps over all shards (Snapshot, LoadFromSnapshot) iterate upwards", 3)
+	const cls = "core.GraphShard.mu"
+	shardIndex := func(fn *ssa.Function, recv ssa.Value) ssa.Value {
+		fa, ok := recv.(*ssa.FieldAddr)
+		if !ok {
+			return nil
+		}
+		ia, ok := fa.X.(*ssa.IndexAddr)
+		if !ok {
+			return nil
+		}
+		return ia.Index
+	}
+	n := 0
+	for _, fn := range lr.funcs {
+		type lk struct {
+			in  ssa.Instruction
+			idx ssa.Value
+		}
+		perBlock := map[*ssa.BasicBlock][]lk{}
+		var all []lk
+		for _, b := range fn.Blocks {
+			for _, in := range b.Instrs {
+				c, ok := in.(*ssa.Call)
+				if !ok {
+					continue
+				}
+				op, recv := syncOp(&c.Call)
+				if op != "Lock" && op != "RLock" {
+					continue
+				}
+				k, ok := lr.resolveLock(fn, recv, 0)
+				if !ok || k.class != cls {
+					continue
+				}
+				if idx := shardIndex(fn, recv); idx != nil {
+					perBlock[b] = append(perBlock[b], lk{in, idx})
+					all = append(all, lk{in, idx})
+				}
+			}
+		}
+		if len(all) == 0 {
+			continue
+		}
+		nm := shortFn(fn)
+		// (1) two nested locks with different index values: the first index must be provably <= the second
+		for i := 0; i < len(all); i++ {
+			for j := 0; j < len(all); j++ {
+				a, b := all[i], all[j]
+				if i == j || a.idx == b.idx {
+					continue
+				}
+				if loopHeader(a.in.Block()) != nil && loopHeader(b.in.Block()) != nil {
+					continue // sweeps are handled below
+				}
+				// b executes after a (a is still held: LockTwoShards-style functions do not unlock in between)
+				if found, _ := (pathQuery{fn: fn, target: func(x ssa.Instruction) bool { return x == b.in }}).find(posOf(a.in)); !found {
+					continue
+				}
+				n++
+				verdict := ascendingProof(a.in.Block(), b.in.Block(), a.idx, b.idx)
+				key := fmt.Sprintf("%s:lower-shard-first#%d", nm, n)
+				switch verdict {
+				case OK:
+					r.Ok("LCK-3b", key, w.Pos(a.in.Pos()), "the first lock provably has the lower (or equal) shard index")
+				case Violation:
+					r.Bad("LCK-3b", key, w.Pos(a.in.Pos()), nm+" takes two graph-shard locks with the HIGHER index first: an edge write spanning two shards deadlocks against the ascending sweep of Snapshot/LoadFromSnapshot (and against any path using lower-first)")
+				default:
+					r.Und("LCK-3b", key, w.Pos(a.in.Pos()), nm+" takes two graph-shard locks but the checker cannot prove which index is lower (ordering logic restructured)")
+				}
+			}
+		}
+		// (2) a lock inside a loop: the index must be an upward counting induction variable
+		for _, l := range all {
+			if loopHeader(l.in.Block()) == nil {
+				continue
+			}
+			phi, isPhi := l.idx.(*ssa.Phi)
+			if !isPhi {
+				continue
+			}
+			n++
+			up := false
+			for _, e := range phi.Edges {
+				if bo, ok := e.(*ssa.BinOp); ok && bo.Op == token.ADD && bo.X == ssa.Value(phi) {
+					if c, ok := constInt(bo.Y); ok && c > 0 {
+						up = true
+					}
+				}
+			}
+			r.Cond(up, "LCK-3b", nm+":ascending-sweep", w.Pos(l.in.Pos()), "shard locks are taken in ascending index order", nm+" sweeps the graph-shard locks in a non-ascending order: it deadlocks against LockTwoShards (lower index first)")
+		}
+	}
+	if n == 0 {
+		r.Und("LCK-3b", "anchor:graph-shard-multi-lock", "", "no multi-shard acquisition found (LockTwoShards/Snapshot restructured)")
+	}
+}
+
+// ascendingProof decides whether idxA <= idxB holds where lock A (in block ba) is followed by lock B.
+// Recognised shapes: (a) a dominating `if x < y` / `if y > x` true edge for direct values;
+// (b) min/max normalisation by a pair of phis fed from a compare-and-swap diamond.
+func ascendingProof(ba, bb *ssa.BasicBlock, idxA, idxB ssa.Value) Verdict {
+	rel := func(cond ssa.Value, truth bool, u, v ssa.Value) string {
+		// relation between u and v implied by cond having the given truth value: "<", "<=", ">", ">=", ""
+		bo, ok := cond.(*ssa.BinOp)
+		if !ok {
+			return ""
+		}
+		op := bo.Op
+		x, y := bo.X, bo.Y
+		if !truth {
+			switch op {
+			case token.LSS:
+				op = token.GEQ
+			case token.LEQ:
+				op = token.GTR
+			case token.GTR:
+				op = token.LEQ
+			case token.GEQ:
+				op = token.LSS
+			default:
+				return ""
+			}
+		}
+		s := map[token.Token]string{token.LSS: "<", token.LEQ: "<=", token.GTR: ">", token.GEQ: ">="}[op]
+		if s == "" {
+			return ""
+		}
+		if x == u && y == v {
+			return s
+		}
+		if x == v && y == u {
+			return map[string]string{"<": ">", "<=": ">=", ">": "<", ">=": "<="}[s]
+		}
+		return ""
+	}
+	judge := func(r string) Verdict {
+		switch r {
+		case "<", "<=":
+			return OK
+		case ">", ">=":
+			return Violation
+		}
+		return Undecided
+	}
+	// (a) direct values: walk the dominator chain of A's block looking for the controlling comparison
+	pa, isPhiA := idxA.(*ssa.Phi)
+	pb, isPhiB := idxB.(*ssa.Phi)
+	if !isPhiA && !isPhiB {
+		for b := ba; b != nil; b = b.Idom() {
+			d := b.Idom()
+			if d == nil {
+				break
+			}
+			iff, ok := d.Instrs[len(d.Instrs)-1].(*ssa.If)
+			if !ok {
+				continue
+			}
+			truth := d.Succs[0] == b || d.Succs[0].Dominates(b) && !d.Succs[1].Dominates(b)
+			if d.Succs[0] != b && d.Succs[1] != b && !d.Succs[0].Dominates(b) && !d.Succs[1].Dominates(b) {
+				continue
+			}
+			if d.Succs[1] == b || (d.Succs[1].Dominates(b) && !d.Succs[0].Dominates(b)) {
+				truth = false
+			}
+			if v := judge(rel(iff.Cond, truth, idxA, idxB)); v != Undecided {
+				return v
+			}
+		}
+		return Undecided
+	}
+	// (b) phi normalisation
+	if isPhiA && isPhiB && pa.Block() == pb.Block() {
+		m := pa.Block()
+		res := OK
+		for i, p := range m.Preds {
+			ai, bi := pa.Edges[i], pb.Edges[i]
+			// the comparison that decides whether we arrive through p
+			var cond ssa.Value
+			truth := true
+			if iff, ok := p.Instrs[len(p.Instrs)-1].(*ssa.If); ok {
+				cond = iff.Cond
+				truth = p.Succs[0] == m
+			} else if len(p.Preds) == 1 {
+				if iff, ok := p.Preds[0].Instrs[len(p.Preds[0].Instrs)-1].(*ssa.If); ok {
+					cond = iff.Cond
+					truth = p.Preds[0].Succs[0] == p
+				}
+			}
+			if cond == nil {
+				return Undecided
+			}
+			switch judge(rel(cond, truth, ai, bi)) {
+			case Violation:
+				res = Violation
+			case Undecided:
+				if res != Violation {
+					return Undecided
+				}
+			}
+		}
+		return res
+	}
+	return Undecided
+}
+
+// lckGateTable: lock-order inversions that are legitimate because both opposite-order paths run under one
+// exclusive gate lock. The gate is taken inside `if coordinator != nil`, which a path-insensitive
+// must-analysis cannot see as held, so each side is checked explicitly: under the assumption that the
+// coordinator is configured, every path to the inverted acquisition passes a successful TryAcquire.
+type gateSide struct {
+	pkg, fn string
+	target  func(w *World) func(ssa.Instruction) bool
+}
+type gateSpec struct {
+	lock  string
+	try   string // method name of the TryAcquire wrapper
+	doc   string
+	sides []gateSide
+}
+
+var lckGateTable = map[string]gateSpec{
+	"mmap.VectorArena.slotMu->hnsw.Index.shardsMu[*]": arenaShardGate,
+	"mmap.VectorArena.mu->hnsw.Index.shardsMu[*]":     arenaShardGate,
+}
+
+var arenaShardGate = gateSpec{
+	lock: "hnswMaintenanceCoord.compactionLock",
+	try:  "TryAcquireCompactionLock",
+	doc:  "AsyncCompactor.RunCycle reaches compactChunk/moveBatch, and GraphOptimizer.Vacuum reaches arena.GetBytes, only after TryAcquireCompactionLock succeeded (when a coordinator is configured)",
+	sides: []gateSide{
+		{"pkg/storage/mmap", "AsyncCompactor.RunCycle", func(w *World) func(ssa.Instruction) bool {
+			return callsTo(w.FuncObj("pkg/storage/mmap", "AsyncCompactor.compactChunk"), w.FuncObj("pkg/storage/mmap", "AsyncCompactor.moveBatch"), w.FuncObj("pkg/storage/mmap", "AsyncCompactor.tryDropEmptyChunks"))
+		}},
+		{"pkg/core/hnsw", "GraphOptimizer.Vacuum", func(w *World) func(ssa.Instruction) bool {
+			return callsTo(w.FuncObj("pkg/storage/mmap", "VectorArena.GetBytes"))
+		}},
+	},
+}
+
+func checkGate(w *World, lr *lckResult, g gateSpec) string {
+	for _, sd := range g.sides {
+		fi := w.Func(sd.pkg, sd.fn)
+		if fi == nil {
+			return sd.fn + " was not found (anchor lost)"
+		}
+		fn := w.SSAFunc(fi.Obj)
+		target := sd.target(w)
+		if len(findInstrs(fn, target)) == 0 {
+			return sd.fn + " no longer contains the guarded operation (anchor lost)"
+		}
+		isTry := func(in ssa.Instruction) bool {
+			c, ok := in.(*ssa.Call)
+			if !ok {
+				return false
+			}
+			if c.Call.IsInvoke() {
+				return c.Call.Method.Name() == g.try
+			}
+			o := calleeObj(&c.Call)
+			return o != nil && o.Name() == g.try
+		}
+		// assumption: the coordinator is configured — block the nil edge of nil-tests on interface values
+		assume := map[edgeKey]bool{}
+		for _, b := range fn.Blocks {
+			for _, in := range b.Instrs {
+				bo, ok := in.(*ssa.BinOp)
+				if !ok || (bo.Op != token.NEQ && bo.Op != token.EQL) || !(isNilConst(bo.X) || isNilConst(bo.Y)) {
+					continue
+				}
+				other := bo.X
+				if isNilConst(other) {
+					other = bo.Y
+				}
+				if _, isIface := other.Type().Underlying().(*types.Interface); !isIface {
+					continue
+				}
+				t, f := condEdges(bo)
+				ne := f
+				if bo.Op == token.EQL {
+					ne = t
+				}
+				for _, e := range ne {
+					assume[e] = true
+				}
+			}
+		}
+		ok, _ := mustPassGuard(fn, target, isTry, callValue, true, assume)
+		if !ok {
+			return sd.fn + " can reach its side of the inversion without having obtained " + g.lock + " (" + g.try + " missing or its result ignored)"
+		}
+	}
+	return ""
+}
+
+// leaksFrom: starting after the acquisition (for TryLock-style acquisitions: from its true edges),
+// is there a path to a return that passes neither a release of the class nor a defer that releases it?
+func (lr *lckResult) leaksFrom(fn *ssa.Function, acq ssa.Instruction, class string) bool {
+	releases := func(in ssa.Instruction) bool {
+		switch x := in.(type) {
+		case *ssa.Defer:
+			for k := range lr.deferReleases(fn, x) {
+				if k.class == class {
+					return true
+				}
+			}
+		case *ssa.Call:
+			if op, recv := syncOp(&x.Call); op == "Unlock" || op == "RUnlock" {
+				if k, ok := lr.resolveLock(fn, recv, 0); ok && k.class == class {
+					return true
+				}
+			}
+			for _, cal := range lr.callees(x) {
+				if cs := lr.sum[cal]; cs != nil {
+					for k := range cs.netRel {
+						if k.class == class {
+							return true
+						}
+					}
+				}
+			}
+		}
+		return false
+	}
+	q := pathQuery{fn: fn, target: isExit, avoid: releases}
+	if v, ok := acq.(ssa.Value); ok {
+		isTry := false
+		if c, ok := acq.(*ssa.Call); ok {
+			if op, _ := syncOp(&c.Call); op == "TryLock" || op == "TryRLock" {
+				isTry = true
+			}
+			for _, cal := range lr.callees(c) {
+				if cs := lr.sum[cal]; cs != nil && cs.tryKey != nil {
+					isTry = true
+				}
+			}
+		}
+		if isTry {
+			t, _ := condEdges(v)
+			for _, e := range t {
+				if found, _ := q.find(ipos{e.from.Succs[e.succ], -1}); found {
+					return true
+				}
+			}
+			return false
+		}
+	}
+	found, _ := q.find(posOf(acq))
+	return found
 }
